@@ -39,6 +39,11 @@ def replay(path):
     return 0
 
 
+def random_for(x):
+    import random
+    return random.Random("c11-size-%d" % x)
+
+
 def extra(chk, thorough):
     """The NCP's view: the bytes written, parsed and reassembled by the spec (extracted), are exactly the requests."""
     import api_common as A
@@ -76,6 +81,49 @@ def extra(chk, thorough):
                 bad = (kinds, [g[:40] for g in got], [w[:40] for w in want])
         finally:
             r.close()
+    # every request size around the multiples of the fragment size (where the first fragment is shortest / bumped to hold
+    # the 4-byte command header), through the real request path: the NCP must reassemble exactly the request
+    import zigpy_zboss.commands as c
+    import wire_common as W
+    sbad = None
+    targets = [L for k in (1, 2, 3) for L in range(247 * k - 2, 247 * k + 6)] + [60, 300]
+    for L in targets:
+        kw = W.gen_assignment(random_for(L), c.APS.DataReq.Req)
+        kw["Payload"] = type(kw["Payload"])([])
+        kw["DataLength"] = 0
+        base = c.APS.DataReq.Req(**kw).to_frame().hl_packet.length - 2
+        n = L - base
+        if n < 0:
+            continue
+        prng = random_for(L + 7)
+        kw["Payload"] = type(kw["Payload"])([prng.randrange(256) for _ in range(n)])
+        kw["DataLength"] = n
+        req = c.APS.DataReq.Req(**kw)
+        want = "M:%d:%s" % (int(req.header), hexs(bytes(req.to_frame().hl_packet.data)))
+        r = A.Runner()
+        try:
+            task = r.loop.create_task(r.api.request(req, timeout=5))
+            r.loop.settle()
+            for _ in range(8):
+                if task.done():
+                    break
+                r.step(("ack", r.proto._pack_seq))
+            wire = b"".join(bytes(x) for x in r.wire.log)
+            if not task.done():
+                task.cancel()
+                r.loop.settle()
+        finally:
+            r.close()
+        got = chk.model.batch(["reasm %s" % hexs(wire)])[0].split(" // ")[0].split(";")
+        chk.evaluations += 1
+        chk.count("request_size_sweep")
+        if got != [want] and sbad is None:
+            sbad = (L, n, [g[:60] for g in got], want[:60], len(want))
+    chk.oblige("monitor:reference-NCP-receives-the-request(all sizes around multiples of the fragment size)", sbad is None,
+               json.dumps(sbad)[:300] if sbad else "")
+    if sbad:
+        chk.violation("a request of %d bytes (payload %d) does not reach a protocol-following NCP intact: it reassembles %s, the "
+                      "request is %s... (%d hex digits)" % sbad, {"hl_size": sbad[0], "payload": sbad[1]}, key="ncp-size")
     chk.oblige("monitor:reference-NCP-receives-exactly-the-requests", bad is None, json.dumps(bad)[:300] if bad else "")
     if bad:
         chk.violation("a protocol-following NCP does not receive the requests %s intact: %s vs %s" % bad, {"kinds": bad[0]}, key="ncp-view")
